@@ -137,12 +137,12 @@ class Model:
             except SyntaxError as exc:  # pragma: no cover
                 raise AnalysisError(f"cannot parse {path}: {exc}") from exc
             if os.environ.get("DROPSTAT_RAW_AST") != "1":
-                from .localroles import canon_locals
+                from .localroles import canon_locals, inline_new_attr_aliases
                 from .normalize import inline_module, normalize_tree
 
                 from .prenorm import prenormalize
 
-                tree = inline_module(normalize_tree(canon_locals(prenormalize(tree), path)))
+                tree = inline_module(normalize_tree(inline_new_attr_aliases(canon_locals(prenormalize(tree), path), path)))
             name = path[:-3].replace("/", ".")
             if name.endswith(".__init__"):
                 name = name[: -len(".__init__")]
